@@ -16,10 +16,11 @@ def gen_ack(rng, tier):
                 ops.append("closewrite")
             r = rng.random()
             k = "k%d" % rng.randrange(4)
+            routed = rng.random() < 0.35       # the write arrives at the leader as a request a follower forwarded
             if r < 0.5:
-                ops.append("pub %s v%d" % (k, rng.randrange(1000)))
+                ops.append("%s %s v%d" % ("rpub" if routed else "pub", k, rng.randrange(1000)))
             elif r < 0.65:
-                ops.append("del %s" % k)
+                ops.append("%s %s" % ("rdel" if routed else "del", k))
             else:
                 ops.append("get %s" % k)
         ops += ["get k0", "get k1", "get k2", "get k3"]
@@ -32,7 +33,7 @@ class C06(Prop):
     lean_module = "RNacos.Props.C06"
     level = "proof"
     design_ref = "DESIGN.md §7 C06"
-    models = [ModelRun("ack", gen_ack, lambda c: sum(1 for o in c.ops if o.startswith(("pub", "del"))) >= 2,
+    models = [ModelRun("ack", gen_ack, lambda c: sum(1 for o in c.ops if o.startswith(("pub", "del", "rpub", "rdel"))) >= 2,
                        spec_needs_impl=True, jobs=4, shrinkable=True,
                        search=lambda rng, b: gen_ack(rng, "thorough")[:b], rule=(
         "a complete standalone node in-process (real config_factory wiring, initialised single-node Raft); publishes and "
